@@ -54,6 +54,7 @@ type Item struct {
 }
 type EvalCase struct {
 	Secondary, Logger, Recorder bool
+	NilOptionFirst              bool // a nil EvaluatorOption before all others (skipped by the library)
 	NilLoggerOption             bool // pass EvaluatorOptionErrorLogger(nil) (only when Logger is false)
 	Flags                       []Item
 	Segs                        []Item
@@ -631,6 +632,9 @@ func buildEnv(c *EvalCase) (*evalEnv, bool) {
 		return nil, false
 	}
 	opts := []evaluation.EvaluatorOption{}
+	if c.NilOptionFirst {
+		opts = append(opts, nil)
+	}
 	if c.Secondary {
 		opts = append(opts, evaluation.EvaluatorOptionEnableSecondaryKey(true))
 	}
